@@ -23,6 +23,9 @@ type jb struct {
 	// ExprAsTemplate: an attribute value that is not a literal is written as the JSON
 	// string "${<canonical expression>}" (full-expression mode).
 	ExprAsTemplate bool
+	// NoMerge: blocks of one type are never gathered under one property, so the document
+	// keeps the block sequence of the tree (across types too).
+	NoMerge bool
 }
 
 func jsonString(s string) string {
@@ -286,7 +289,7 @@ func (j *jb) body(b *ast.Body) (string, bool) {
 	}
 	for typ, n := range counts {
 		_ = n
-		if uniform[typ] && j.pick(1, "merge_type") == 0 && j.wild {
+		if uniform[typ] && !j.NoMerge && j.pick(1, "merge_type") == 0 && j.wild {
 			merged[typ] = true
 		}
 	}
@@ -344,6 +347,17 @@ func (j *jb) body(b *ast.Body) (string, bool) {
 // JSONFile renders a body tree as one of its admissible JSON encodings.
 func JSONFile(b *ast.Body, ch Chooser, wild bool, escapeTemplates bool, plainObject ...string) (string, JSONFeat, bool) {
 	j := &jb{ch: ch, wild: wild, Feat: JSONFeat{}, EscapeTemplates: escapeTemplates, PlainObject: map[string]bool{}}
+	for _, p := range plainObject {
+		j.PlainObject[p] = true
+	}
+	s, ok := j.body(b)
+	return s, j.Feat, ok
+}
+
+// JSONFileSeq is JSONFile restricted to the encodings that keep the block sequence of the
+// tree: every block is its own property (duplicate names) or its own array element.
+func JSONFileSeq(b *ast.Body, ch Chooser, wild bool, escapeTemplates bool, plainObject ...string) (string, JSONFeat, bool) {
+	j := &jb{ch: ch, wild: wild, Feat: JSONFeat{}, EscapeTemplates: escapeTemplates, NoMerge: true, PlainObject: map[string]bool{}}
 	for _, p := range plainObject {
 		j.PlainObject[p] = true
 	}
